@@ -723,9 +723,125 @@ class WorkersAndRecords(Suite):
         return repr(case)
 
 
+HANDLER_SRC = """
+import shutil
+from taskchain import Task, Parameter, DirData
+
+STATE = {'break': False}
+
+class Quiet(Task):              # logs one line per run
+    class Meta:
+        parameters = [Parameter('tag')]
+    def run(self, tag) -> str:
+        self.logger.info('token:quiet:' + str(tag))
+        return 'v' + str(tag)
+
+class Box(Task):                # a directory result; a broken run removes its own work directory and then fails
+    class Meta:
+        parameters = [Parameter('tag')]
+    def run(self, tag) -> DirData:
+        d = self.get_data_object()
+        self.logger.info('token:box:' + str(tag))
+        if STATE['break']:
+            shutil.rmtree(d.dir)
+            raise RuntimeError('broken run')
+        (d.dir / 'f.txt').write_text(str(tag))
+        return d
+"""
+
+
+class LogHandlers(Suite):
+    """the log of a task is the log of its latest run also when that run wrote nothing to it (logging switched off for the
+    time of the run, the task logger's level raised): the lines of the run before are gone; and a run whose clean-up itself
+    fails (a directory task that removed its work directory before failing) leaves no log handler behind - the retry's
+    lines appear once, in its own log, and other tasks' logs get none of them.  Runtime check only."""
+    name = 'log_handlers'
+    model = ''
+
+    def gen(self, rng, tier):
+        return [dict(kind='quiet', how=h) for h in ('disable', 'level')] + [dict(kind='broken_cleanup', other=o) for o in (False, True)]
+
+    def run_impl(self, case):
+        import logging, shutil, sys, tempfile, types
+        from taskchain import Config
+        tmp = tempfile.mkdtemp(prefix='tcverif-logh-')
+        name = 'tcv_logh'
+        m = types.ModuleType(name)
+        sys.modules[name] = m
+        try:
+            exec(compile(HANDLER_SRC, name, 'exec'), m.__dict__)
+            for c in (m.Quiet, m.Box):
+                c.__module__ = name
+            chain = lambda tag: Config(Path(tmp) / 'data', name='c', data={'tasks': [m.Quiet, m.Box], 'tag': tag}).chain()
+            tokens = lambda t: [l for l in (t.log or []) if 'token:' in l]
+            if case['kind'] == 'quiet':
+                ch = chain(1)
+                t = ch['quiet']
+                out = dict(v1=t.value, log1=tokens(t))
+                t.force()
+                if case['how'] == 'disable':
+                    logging.disable(logging.CRITICAL)
+                else:
+                    t.logger.setLevel(logging.CRITICAL)
+                try:
+                    out['v2'] = t.value
+                finally:
+                    logging.disable(logging.NOTSET)
+                    t.logger.setLevel(logging.DEBUG)
+                out['log2'] = tokens(t)
+                out['raw2'] = list(t.log or [])
+                return out
+            m.STATE['break'] = True
+            out = {}
+            try:
+                chain(1)['box'].value
+                out['first'] = 'returned'
+            except Exception as e:
+                out['first'] = type(e).__name__
+            m.STATE['break'] = False
+            if case['other']:
+                ch2 = chain(2)
+                out['other_v'] = str(ch2['quiet'].value)
+                out['other_box'] = sorted(p.name for p in ch2['box'].value.iterdir())
+                out['log_other_box'] = tokens(ch2['box'])
+            ch = chain(1)
+            out['retry'] = sorted(p.name for p in ch['box'].value.iterdir())
+            out['log_retry'] = tokens(ch['box'])
+            out['log_quiet'] = tokens(ch['quiet']) if ch['quiet'].has_data else None
+            return out
+        finally:
+            logging.disable(logging.NOTSET)
+            sys.modules.pop(name, None)
+            shutil.rmtree(tmp, ignore_errors=True)
+
+    def oracle(self, case, obs):
+        if 'unexpected_exception' in obs:
+            return f'unexpected exception {obs["unexpected_exception"]}: {obs["text"]}'
+        if case['kind'] == 'quiet':
+            if len(obs['log1']) != 1:
+                return f'{case}: the first run logged one line, the log holds {obs["log1"]}'
+            if obs['log2'] or any('quiet:1' in l for l in obs['raw2']):
+                return f'{case}: the second run wrote nothing to its log, the log holds {obs["raw2"]} - lines of the run before'
+            return None
+        n = lambda log, tok: sum(1 for l in log if tok in l)
+        if obs['first'] == 'returned':
+            return f'{case}: the broken run returned a value'
+        if n(obs['log_retry'], 'token:box:1') != 1 or len(obs['log_retry']) != 1:
+            return f'{case}: the log of the retried run holds {obs["log_retry"]}; the run logged one line'
+        if case['other'] and (len(obs['log_other_box']) != 1 or n(obs['log_other_box'], 'token:box:2') != 1):
+            return f'{case}: the log of the task with other parameters holds {obs["log_other_box"]}; its run logged one line'
+        return None
+
+    def nontrivial(self, case, obs):
+        return True
+
+    def key(self, case):
+        return repr(case)
+
+
 class C18(Prop):
     pid = 'C18'
-    suites = [Records(), RunBodies(), NamedConfigs(), ResumableLogs(), MutatedParameters(), WorkersAndRecords()]
+    suites = [Records(), RunBodies(), NamedConfigs(), ResumableLogs(), MutatedParameters(), WorkersAndRecords(), LogHandlers()]
     assumptions = ['timestamps, user name, library version, class and module names are abstracted away',
                    'the framing lines of the log (run started / run ended) are abstracted: the messages logged by run '
                    'are the tokens']
